@@ -247,3 +247,17 @@ Fixpoint sat_iter (k : nat) (nv : N) (vars : list N) (upto : bool) (result : bdd
   end.
 Definition mk_sat_k (upto : bool) (nv k : N) (vars : list N) : outcome bdd :=
   bind (mk_conjunctive_clause nv (all_false_clause vars)) (sat_iter (N.to_nat k) nv vars upto).
+
+(* ======================================================================================== *)
+(* cmp_implies: the library's own composition of two limit-2 implications                    *)
+Inductive ord := OLt | OEq | OGt.
+Definition cmp_implies (a b : bdd) : outcome (option ord) :=
+  if nvars a =? nvars b then
+    bind (fused_binary_flip_op_with_limit 2 a b None None None op_imp) (fun ab =>
+    bind (fused_binary_flip_op_with_limit 2 b a None None None op_imp) (fun ba =>
+      let ab' := match ab with Some r => r | None => mk_false (nvars a) end in
+      let ba' := match ba with Some r => r | None => mk_false (nvars a) end in
+      Ok (if is_true ab' && is_true ba' then Some OEq
+          else if is_true ab' then Some OLt
+          else if is_true ba' then Some OGt else None)))
+  else Ok None.
